@@ -90,6 +90,7 @@ func (p *Parser) NewInput(s io.RuneScanner) {
 // token of a text that does not end in whitespace stays in the lexer.
 func (p *Parser) EndInput() {
 	p.lexer.AddNextStream(strings.NewReader("\n"))
+	p.lexer.finished = true
 }
 
 func (p *Parser) ResetAddNewInput(s io.RuneScanner) {
@@ -494,7 +495,7 @@ func (parser *Parser) ParseExpression(depth int) (res Sexp, err error) {
 	case TokenSymbol:
 		if tok.str == "-" || tok.str == "+" {
 			// are we -Inf ?
-			tok2, err := parser.ParserPeekNextToken(0)
+			tok2, err := parser.peekAfterSign()
 			if err != nil {
 				return SexpEnd, err
 			}
@@ -778,6 +779,23 @@ func (parser *Parser) ParseInfix(depth int) (Sexp, error) {
 
 func (parser *Parser) Linenum() int {
 	return parser.lexer.Linenum()
+}
+
+// peekAfterSign looks at the token that follows a lone + or - (it may be
+// the Inf of -Inf). Like ParserPeekNextToken it asks for more input when
+// the tokens run out, but only until EndInput has said that no more will
+// come: then the sign stands alone and EndTk is returned.
+func (parser *Parser) peekAfterSign() (tok Token, err error) {
+	for {
+		tok, err = parser.lexer.PeekNextToken(0)
+		if err != nil || tok.typ != TokenEnd || parser.lexer.finished {
+			return
+		}
+		parser.sendMe.Err = ErrMoreInputNeeded
+		if !parser.yield(parser.sendMe) {
+			return tok, ParserHaltRequested
+		}
+	}
 }
 
 func (parser *Parser) ParserPeekNextToken(extra int) (tok Token, err error) {
